@@ -1179,6 +1179,11 @@ def nodupKeys {α : Type} : List (String × α) → Bool
   | [] => true
   | (k, _) :: r => (alookup k r).isNone && nodupKeys r
 
+/-- every shared name of the document is a v3 component identifier (exclusion of finding #38 when false) -/
+def namesOK {V : Type} (d : Doc2 V) : Bool :=
+  d.params.all (fun kv => identOK kv.1) && d.responses.all (fun kv => identOK kv.1) &&
+  d.defs.all (fun kv => identOK kv.1) && d.secs.all (fun kv => identOK kv.1)
+
 def locOK (l : Loc2) : Bool := l.host != "" || (l.basePath == "" && l.schemes.isEmpty)
 
 /-- documents without shared parameters whose operations take inline query / header / path parameters;
